@@ -17,32 +17,45 @@ CYCLE = 2 * sp.pi
 PH = "pulsarbat.pulsar.phase."
 
 
-def make_phase(prog, name, imaginary=False, cycle=None):
+_BUF = [0]
+
+
+def make_phase(prog, name, imaginary=False, cycle=None, shape=()):
     ci = prog.cls("Phase")
     i_, f_ = sp.Symbol(name + "_int", real=True), sp.Symbol(name + "_frac", real=True)
     o = ObjV(ci, {"imaginary": BoolV(imaginary), "_pint": Num(i_), "_pfrac": Num(f_)}, tag=name)
     if cycle is not None:
         o.attrs["_cycle"] = Num(cycle)        # numeric value of one cycle (1 when the floating-point grouping is studied)
-    _methods(o)
+    _BUF[0] += 1
+    o.attrs["_buf"] = StrV(f"buffer{_BUF[0]}")      # identity of the underlying (int, frac) record array
+    _methods(o, shape)
     return o
 
 
-def _methods(o):
+def _methods(o, shape=()):
     def view(ev, args, kwargs, fr, node):
         t = args[0] if args else None
         if isinstance(t, ExtV) and t.dotted == "numpy.ndarray":
             return DictV({"int": Num(o.attrs["_pint"].expr, kind="array", tag="ndarray"),
                           "frac": Num(o.attrs["_pfrac"].expr, kind="array", tag="ndarray")})
+        if isinstance(t, ClassV) and t.ci is o.cls:
+            # ndarray.view(cls): a NEW object over the SAME buffer
+            c = ObjV(o.cls, dict(o.attrs), tag=(o.tag or "") + "~")
+            _methods(c, shape)
+            return c
         return o
 
     def copy(ev, args, kwargs, fr, node):
         c = ObjV(o.cls, dict(o.attrs), tag=(o.tag or "") + "'")
-        _methods(c)
+        _BUF[0] += 1
+        c.attrs["_buf"] = StrV(f"buffer{_BUF[0]}")
+        _methods(c, shape)
         return c
     o.attrs["view"] = PyFuncV(view, "view")
     o.attrs["copy"] = PyFuncV(copy, "copy")
-    o.attrs["isscalar"] = BoolV(True)
-    o.attrs["shape"] = TupleV([])
+    o.attrs["isscalar"] = BoolV(len(shape) == 0)
+    o.attrs["shape"] = TupleV([Num(s_) for s_ in shape])
+    o.attrs["ndim"] = Num(len(shape))
     o.attrs["dtype"] = ExtV("phase_dtype")
 
 
@@ -84,7 +97,11 @@ def phase_evaluator(prog, log: PhaseLog, capture_day_frac=False, oracle=None, gr
         k = counter[0]
         res.attrs.update({"imaginary": BoolV(False), "_pint": Num(sp.Symbol(f"R{k}_int", real=True)), "_pfrac": Num(sp.Symbol(f"R{k}_frac", real=True)),
                           "_from": b})
-        _methods(res)
+        if "_buf" not in res.attrs:
+            _BUF[0] += 1
+            res.attrs["_buf"] = StrV(f"buffer{_BUF[0]}")
+        shp = tuple(x.expr for x in out.attrs["shape"].items) if isinstance(out, ObjV) and isinstance(out.attrs.get("shape"), TupleV) else ()
+        _methods(res, shp)
         return res
 
     def ov_phase_ctor(ev, args, kwargs, node, fr, ci):
